@@ -490,6 +490,8 @@ def _one_cg(ctx, c, mod):
             ctx.stat("cg:iterations", nit)
             if out["hint"]:
                 ctx.stat(f"cg:gaveup={out['hint']}")
+        if isinstance(mod, dict) and "reason" in mod:
+            ctx.stat(f"cg:model-exit={mod['reason']}")
         why = compare_cg(ctx, c, out, mod)
         if why is not None:
             ctx.disagree(c, _strip(out), {k: mod.get(k) for k in ("status", "reason", "itcount", "ccount", "error")},
